@@ -761,6 +761,12 @@ impl Ctx {
         }
         let lv: Vec<Vec<U>> = lits.iter().map(|t| (0..nw).map(|w| self.eval(w, *t)).collect()).collect();
         let try_unit = |me: &mut Ctx, prod_vals: &[U]| -> Option<U> {
+            // cheap cross-multiplication test of "same ratio in every world" before inverting
+            for w in 1..nw {
+                if me.m.mul(&rv[w], &prod_vals[0]) != me.m.mul(&rv[0], &prod_vals[w]) {
+                    return None;
+                }
+            }
             let inv0 = me.m.inv(&prod_vals[0])?;
             let c = me.m.mul(&rv[0], &inv0);
             for w in 1..nw {
